@@ -273,6 +273,11 @@ def gen_history(rng, k, tier, sms, failures=False, mixed=True):
                 'init': has_init, 'exit': has_exit, 'func': rng.choice(['task', 'task', 'task2'])}
         if call['input'] == 'gen':
             params['iterable_len'] = n
+        # generous init / exit timeouts (never exceeded): the timeout-guarded variants of the init / exit paths are separate code
+        if rng.random() < 0.4:
+            params['worker_init_timeout'] = 30
+        if rng.random() < 0.4:
+            params['worker_exit_timeout'] = 30
         if failures and rng.random() < 0.45:
             mode = rng.choice(['raise', 'raise', 'timeout', 'die', 'closed_early', 'nested', 'init_raise', 'init_raise', 'exit_raise'])
             call['fail'] = mode
